@@ -16,6 +16,8 @@ FailedOf(id, cl) ==
 Judge(e) ==
     CASE e.ev = "row" -> FailedOf(e.id, RowClauses(e))
       [] e.ev = "run" -> FailedOf(e.id, StatsClauses(e.rows, e.stats, e.ninputs))
+      \* `synrbl run`: the statistics written to <output>.stats against the rows of the output file
+      [] e.ev = "cli" -> FailedOf(e.id, StatsClauses(e.rows, e.stats, e.ninputs))
       [] OTHER -> << <<e.id, "UnknownEvent">> >>
 
 TInit == i = 1 /\ bad = <<>> /\ TLCSet(1, <<>>)
